@@ -32,22 +32,26 @@ SlabRemove(t, k) ==
 SetNode(t, i, nd) == [t EXCEPT !.nodes[i] = nd]
 
 \* ---------------------------------------------------------------- reachability
-RECURSIVE Desc(_, _)
-\* proper descendants of i
-Desc(t, i) == LET cs == ChildrenOf(t.nodes[i]) \cap Occ(t)
-              IN cs \cup UNION {Desc(t, c) : c \in cs}
+\* proper descendants of i; the recursion is bounded by the number of stored nodes, so that it also terminates on recorded
+\* states whose child links form a cycle (such states violate ChildAcyclic and are reported, not explored)
+RECURSIVE DescB(_, _, _)
+DescB(t, i, fuel) == IF fuel = 0 THEN {}
+                     ELSE LET cs == ChildrenOf(t.nodes[i]) \cap Occ(t)
+                          IN cs \cup UNION {DescB(t, c, fuel - 1) : c \in cs}
+Desc(t, i) == DescB(t, i, Cardinality(Occ(t)))
+ChildAcyclic(t) == \A i \in Occ(t) : i \notin Desc(t, i)
 Subtree(t, i) == {i} \cup Desc(t, i)
 
 \* order in which remove_all_descendants vacates slots: explicit stack, children in label
 \* order, pop from the end, push the popped node's children in label order
 RECURSIVE RemovalOrder(_, _, _)
 RemovalOrder(t, stack, acc) ==
-    IF stack = <<>> THEN acc
+    IF stack = <<>> \/ Len(acc) > Cardinality(Occ(t)) THEN acc             \* second disjunct: only on cyclic (corrupt) recorded states
     ELSE LET n == stack[Len(stack)]
              rest == SubSeq(stack, 1, Len(stack) - 1)
              nd == t.nodes[n]
              kids == SelectSeq(nd.ch, LAMBDA c : c # NONE)
-         IN RemovalOrder(t, rest \o kids, Append(acc, n))
+         IN IF n \notin Occ(t) THEN acc ELSE RemovalOrder(t, rest \o kids, Append(acc, n))
 
 RECURSIVE RemoveSeq(_, _, _)
 RemoveSeq(t, order, k) == IF k > Len(order) THEN t ELSE RemoveSeq(SlabRemove(t, order[k]), order, k + 1)
